@@ -531,6 +531,13 @@ def class_specs(r, tier, bad=0.1):
     add("ReadDeviceInformationResponse", (1, {0: rbytes(r, 120), 1: rbytes(r, 120), 2: rbytes(r, 5)}))
     add("ReadDeviceInformationResponse", (1, {0: rbytes(r, 120), 1: rbytes(r, 121), 2: rbytes(r, 5)}))
     add("ReadDeviceInformationResponse", (1, {0: rbytes(r, 120), 300: rbytes(r, 3)}))
+    # repeated (list-valued) object ids that run out of PDU space in the MIDDLE of the list: after two of three items,
+    # after the first of two, right at an item that would fit exactly; behind a scalar and alone
+    add("ReadDeviceInformationResponse", (1, {0: rbytes(r, 10), 0x80: [rbytes(r, 100), rbytes(r, 100), rbytes(r, 100)]}))
+    add("ReadDeviceInformationResponse", (3, {0x80: [rbytes(r, 120), rbytes(r, 120), rbytes(r, 5)]}))
+    add("ReadDeviceInformationResponse", (1, {0: [rbytes(r, 200), rbytes(r, 60)]}))
+    add("ReadDeviceInformationResponse", (2, {1: [rbytes(r, 50), rbytes(r, 50), rbytes(r, 50), rbytes(r, 50), rbytes(r, 50)]}))
+    add("ReadDeviceInformationResponse", (1, {0: rbytes(r, 100), 1: [rbytes(r, 100), rbytes(r, 41)], 2: rbytes(r, 3)}))
     # every public constructor: all-keyword form, and every parameter once with a falsy value
     # (0 / False / [] / b'') while the others keep ordinary values
     def ordinary(cn, p):
